@@ -359,6 +359,10 @@ pub fn run(run: &mut Run) {
     let mut sel = Sel::standard(thorough);
     sel.m4 = None;
     if !thorough {
+        // quick: the cornered-king and back-rank families judge legality and attack queries, not
+        // the pseudo-legal set; they stay in the thorough tier here
+        sel.boxk = None;
+        sel.backrank = false;
         // quick: the complete W-scan on CASTLE, PROMO and REACH; the reduced W-scan (members of
         // W whose source is occupied + the empty-source probe set) on all other families
         let full = Sel { castle: sel.castle, promo: sel.promo, reach: sel.reach, ..Default::default() };
